@@ -22,7 +22,8 @@ OnLock == /\ Line.ev = "lock"
           /\ UNCHANGED sid
 OnRace == /\ Line.ev = "race"
           /\ Report(UNION { FailT(Line.oks = 1, "C11:race-winners-" \o ToString(Line.oks)),
-                            FailT(Line.oks + Line.already = Line.n /\ Line.other = 0, "C11:race-loser-error") })
+                            FailT(Line.oks + Line.already = Line.n /\ Line.other = 0, "C11:race-loser-error"),
+                            FailT(Line.loser_muts = 0, "C11:race-loser-made-mutating-calls") })
           /\ UNCHANGED <<s, sid>>
 Next == l <= Len(Lines) /\ l' = l + 1 /\ (OnReset \/ OnLock \/ OnRace)
 Spec == Init /\ [][Next]_<<l, s, sid>>
